@@ -119,6 +119,9 @@ impl Rng {
     pub fn chance(&mut self, num: usize, den: usize) -> bool {
         self.below(den) < num
     }
+    pub fn pick_s<'a>(&mut self, xs: &[&'a str]) -> &'a str {
+        xs[self.below(xs.len())]
+    }
     pub fn pick<'a, T>(&mut self, xs: &'a [T]) -> &'a T {
         &xs[self.below(xs.len())]
     }
@@ -218,7 +221,10 @@ pub fn last_cost() -> Cost {
 
 /// Default step budget for a call on `len` bytes of input.
 pub fn step_budget(len: usize) -> u64 {
-    64 * (len as u64 + 16)
+    // linear part for short inputs + quadratic allowance ("small polynomial"):
+    // a loop that stops consuming input exceeds any such bound.
+    let l = len as u64 + 16;
+    256 * l + 4 * l * l
 }
 
 /// Execute `f` with the step budget armed; capture panics.
